@@ -55,6 +55,72 @@ func (g *genState) pick(xs []int) int { return xs[g.r.Intn(len(xs))] }
 var sizes = []int64{1 << 20, 1<<20 + 1, 3 << 20, 5<<20 + 3, 64 << 20, 1 << 30, 1<<30 + 7, 10 << 30}
 var prices = []uint64{1e7, 1e8, 1e9, 1e9, 2e9, 3e9 + 1, 1e10}
 
+var readPrices = []uint64{1e8, 1e8, 1e8, 16384000000, 3e8 + 7, 0} // per GB read; 16384000000 = 1e6 per 64 KiB block
+
+// readRound: read markers around the reader's pool balance. The pool of client j is first brought to a chosen
+// position relative to the price of the marker — far above, exactly at, one token short (non-zero), empty, absent or
+// as it is — then the marker is redeemed; sometimes a second marker follows (the counter continues), or one that
+// repeats the counter (free), or one for a blobber / allocation that does not exist.
+func (g *genState) readRound(open []int) {
+	r, x := g.r, g.x
+	s := x.snapshot()
+	k := len(x.allocs)
+	if len(x.allocs) > 0 {
+		k = r.Intn(len(x.allocs)) // may be closed
+	}
+	if len(open) > 0 && r.Intn(8) != 0 {
+		k = g.pick(open)
+	}
+	bi := r.Intn(nBlobbers)
+	if k < len(s.S.Allocs) && s.S.Allocs[k].Present && r.Intn(10) != 0 {
+		a := s.S.Allocs[k]
+		bi = x.blobIdx(a.BAs[r.Intn(len(a.BAs))].BlobberID)
+	}
+	j := r.Intn(nClients)
+	n := []int64{1, 7, 100, 16384, 16384*3 + 5, 1000, 3000, 1 << 20, 0}[r.Intn(9)]
+	price := readPrice(s, k, x.blob[bi].ID, n)
+	bal, has := uint64(0), false
+	if rp := s.S.ReadPools[j]; rp.Present {
+		bal, has = rp.Balance, true
+	}
+	setTo := func(target uint64) {
+		if bal > target {
+			g.do("rpu %d", j)
+			bal = 0
+		}
+		if target > bal {
+			g.do("rpl %d %d", j, target-bal)
+		}
+	}
+	switch r.Intn(8) {
+	case 0, 1: // exactly the price
+		setTo(price)
+	case 2, 3: // one token short of the price, but not empty
+		if price >= 2 {
+			setTo(price - 1)
+		}
+	case 4: // a small part of the price
+		if price >= 10 {
+			setTo(price/3 + 1)
+		}
+	case 5: // plenty
+		setTo(2*price + 1e9)
+	case 6: // drained
+		if has {
+			g.do("rpu %d", j)
+		}
+	}
+	g.do("rr %d %d %d %d", k, bi, j, n)
+	switch r.Intn(5) {
+	case 0:
+		g.do("rr %d %d %d %d", k, bi, j, n)
+	case 1:
+		g.do("rr %d %d %d 0", k, bi, j)
+	case 2:
+		g.do("rr %d %d %d %d", k, bi, r.Intn(nClients), 1+r.Intn(5000))
+	}
+}
+
 func (g *genState) openAllocs() []int {
 	s := g.x.snapshot()
 	var ks []int
@@ -84,7 +150,7 @@ func (g *genState) setup() {
 		if r.Intn(4) == 0 {
 			cap = 11<<30 + int64(r.Intn(1<<20))
 		}
-		g.do("addb %d %d %d %d %d %d", i, cap, prices[r.Intn(len(prices))], uint64(1e8), r.Intn(nClients), []int{0, 100, 250, 500}[r.Intn(4)])
+		g.do("addb %d %d %d %d %d %d", i, cap, prices[r.Intn(len(prices))], readPrices[r.Intn(len(readPrices))], r.Intn(nClients), []int{0, 100, 250, 500}[r.Intn(4)])
 		g.blobbers = append(g.blobbers, i)
 		st := uint64(1000e10)
 		if r.Intn(5) == 0 {
@@ -162,6 +228,10 @@ func (g *genState) step() {
 	s := x.snapshot()
 	w := r.Intn(100)
 	bias := map[string]int{"C12": 0, "C13": 1, "C14": 2, "C09": 3}[g.prop]
+	if rd := r.Intn(100); rd < 4 || g.prop == "C09" && rd < 14 {
+		g.readRound(open)
+		return
+	}
 	switch {
 	case w < 8 || len(open) == 0 && w < 40:
 		if len(x.allocs) < 4 {
@@ -595,6 +665,21 @@ var scripts = [][]string{
 		"stake b 0 0 1000000000000", "stake b 1 1 1000000000000",
 		"newa 3 1 1 1073741824 100000000000 0,1", "commit 0 1 104857600", "tick 2592000 2 1", "commit 0 0 104857600",
 		"tick 10 2 1", "fin 0 c3", "fin 0 b0", "cancel 0 c3"},
+	// the read path at the boundary (1e6 per 64 KiB block): a reader without a pool; a marker with counter 0; markers priced
+	// below, exactly at, one block above a NON-EMPTY pool and far above it (pool 0.3 token, marker 1 token); an empty
+	// pool; a repeated counter (free); a second blobber's own counter; a blobber outside the allocation; an absent
+	// allocation; a killed blobber (pool debited, nobody credited); after expiry; after the close
+	{"init fx-read-path 1",
+		"addb 0 107374182400 1000000000 16384000000 0 100", "addb 1 107374182400 1000000000 16384000000 1 100",
+		"addb 2 107374182400 1000000000 0 2 100",
+		"stake b 0 0 1000000000000", "stake b 1 1 1000000000000", "stake b 2 1 1000000000000",
+		"newa 3 1 1 1073741824 100000000000 0,1",
+		"rr 0 0 2 1000", "rr 0 0 2 0", "rpl 2 3000000000", "rr 0 0 2 1000", "rr 0 0 2 2000", "rr 0 0 2 1",
+		"rpl 2 3000000000", "rr 0 0 2 3001", "rr 0 0 2 10000", "rr 0 1 2 3000", "rr 0 0 2 0", "rr 0 2 2 5", "rr 7 0 2 5",
+		"rr 0 0 1 0", "rr 0 0 3 1", "collect b 0 0", "collect b 1 1",
+		"kill b 1", "rpl 2 1000000000", "rr 0 1 2 500", "rr 0 1 2 501",
+		"newa 1 1 1 1048576 10000000000 2,0", "rr 1 2 2 100000", "rr 1 2 0 100000",
+		"tick 2592001 2 1", "rr 0 0 2 1", "fin 0 c3", "rr 0 0 2 1", "rpu 2", "rr 1 0 2 1", "rr 1 0 2 4294967297"},
 	// malformed stream: both sides must answer bad-op and keep their state
 	{"init fx-malformed 1", "addb 0 107374182400 1000000000 100000000 0 100", "frobnicate 1 2", "commit 0", "addb 9 1 1 1 0 0",
 		"addb x 1 1 1 0 0", "stake q 0 0 5", "newa 0 1 1 1048576 5 0,7", "upd 0 z3 0 0 0 - -", "fin 0", "fin 0 c9", "tick 1 1 2",
